@@ -33,6 +33,28 @@ pub fn fn_common<'tcx>(cx: &mut Ctx<'tcx>, did: DefId, mut o: Obj) -> Obj {
         o = o.str("vis", &v);
         o = o.str("name", tcx.item_name(did).as_str());
     }
+    // names of the type parameters in scope (parent's first), in the order of generic type arguments
+    if matches!(kind, DefKind::Fn | DefKind::AssocFn) {
+        let mut names: Vec<String> = Vec::new();
+        let g = tcx.generics_of(did);
+        let mut chain = Vec::new();
+        let mut cur = Some(g);
+        while let Some(gg) = cur {
+            chain.push(gg);
+            cur = gg.parent.map(|p| tcx.generics_of(p));
+        }
+        chain.reverse();
+        for gg in chain {
+            for p in &gg.own_params {
+                if let ty::GenericParamDefKind::Type { .. } = p.kind {
+                    names.push(p.name.to_string());
+                }
+            }
+        }
+        if !names.is_empty() {
+            o = o.raw("generics", &crate::json::str_arr(&names));
+        }
+    }
     // parent impl / trait
     if matches!(kind, DefKind::AssocFn | DefKind::AssocConst { .. }) {
         let parent = tcx.parent(did);
